@@ -49,7 +49,7 @@ RULE = ("Hypothesis-generated origin dataset + program of 1..5 file-producing st
         "a non-scalar feature was compared by >=2 routes on a file that reaches it "
         "through a non-monotonic or repeating map or through >=2 basin hops; "
         "distinct = sha1 of the canonical JSON spec")
-BUDGET = {"quick": 320, "thorough": 6000}
+BUDGET = {"quick": 960, "thorough": 12000}
 MAX_ROUNDS = 3   # re-runs after a violation (each finds one more signature)
 ESSENTIAL = ["ref:mapped", "ref:same", "ref:internal", "ref:own-copy",
              "ref:restricted", "map:repeating", "map:non-monotonic",
